@@ -140,6 +140,7 @@ type Case struct {
 	StoreFaults    []Fault        `json:"store_faults,omitempty"`
 	GateCommits    bool           `json:"gate_commits,omitempty"`
 	GateCallbacks  bool           `json:"gate_callbacks,omitempty"` // persister callbacks are scheduler actions
+	GateStatus     bool           `json:"gate_status,omitempty"`    // the return of every pipeline status write is a scheduler action
 	Client         []ClientAction `json:"client,omitempty"`
 	GoMaxProcs     int            `json:"gomaxprocs,omitempty"`
 	// Choices is filled while running: the scheduler's draws (index, set size).
